@@ -213,21 +213,23 @@ func runC18S(s *kernel.Sim) {
 	tp := s.Tape
 	n := tp.Range(2, 3)
 	siteOn, density := lockSites(tp)
+	stmtPoints := tp.Chance(1, 2) // statement-level points inside processor Execute methods, in half of the runs
 	paths := [][2]string{{"a.com", "/p1"}, {"a.com", "/l"}, {"b.io", "/c"}, {"a.com", "/zz"}, {"a.com", "/p2"}}
 	type txn struct {
-		u   int
-		grp string
-		out string
+		u    int
+		grp  string
+		skip bool // carries x-skip=1: the probe flows' filter lets it pass
+		out  string
 	}
 	txns := make([]*txn, n)
 	for i := range txns {
-		txns[i] = &txn{u: tp.Weighted([]int{3, 4, 4, 1, 3}), grp: []string{"", "a"}[tp.Choose(2)]}
+		txns[i] = &txn{u: tp.Weighted([]int{3, 4, 4, 1, 3}), grp: []string{"", "a"}[tp.Choose(2)], skip: tp.Chance(1, 3)}
 	}
 	prefix := tp.Range(0, 3) // sequential requests on the fixed-window quota before the burst
-	s.Knobs["n"], s.Knobs["lock_sites"], s.Knobs["prefix"] = n, density, prefix
+	s.Knobs["n"], s.Knobs["lock_sites"], s.Knobs["prefix"], s.Knobs["statement_points"] = n, density, prefix, stmtPoints
 	var plan []string
 	for _, t := range txns {
-		plan = append(plan, paths[t.u][1]+"#"+t.grp)
+		plan = append(plan, fmt.Sprintf("%s#%s#skip=%v", paths[t.u][1], t.grp, t.skip))
 	}
 	s.Knobs["txns"] = plan
 	s.MixSig(fmt.Sprint(plan, prefix))
@@ -239,6 +241,9 @@ func runC18S(s *kernel.Sim) {
 		h := map[string]string{}
 		if t.grp != "" {
 			h["x-grp"] = t.grp
+		}
+		if t.skip {
+			h["x-skip"] = "1"
 		}
 		o := e.doRequest(reqMsg(id, "GET", paths[t.u][0], paths[t.u][1], h))
 		switch {
@@ -263,7 +268,7 @@ func runC18S(s *kernel.Sim) {
 	prep(env, "c")
 	inGroup := true
 	s.YieldOn = func(point string, a []string, harness bool) bool {
-		return harness && inGroup && isLockPoint(point) && siteOn(a[0])
+		return harness && inGroup && (isLockPoint(point) || (stmtPoints && point == "stmt")) && siteOn(a[0])
 	}
 	for i, t := range txns {
 		i, t := i, t
